@@ -1951,6 +1951,9 @@ class PPRecordFmt(PaletteUser):
     class PPRecordPalette(CompoundPalette, FieldType.RecordPalette):
         SUB_PALETTES_MAP = {}
 
+        # is used to mark truncated values (which do not fit into column width)
+        warn = ConfColor('WARN')
+
     PALETTE_CLASS = PPRecordPalette
 
     def __init__(
